@@ -310,10 +310,24 @@ func c13Chunks(c *vf.Ctx) {
 		}
 		r := c.Rand(sub, i)
 		ch := c13GenChunk(r, i%2 == 0)
+		if i%500 == 7 {
+			// a chunk of the size providers really publish (16384 sha2-256 multihashes: ~0.6 MB as DAG-CBOR, over a
+			// megabyte as DAG-JSON)
+			ch.Entries = ch.Entries[:0]
+			for k := 0; k < 16384; k++ {
+				mh, _ := multihash.Sum(rbytes(r, 8), multihash.SHA2_256, -1)
+				ch.Entries = append(ch.Entries, mh)
+			}
+			c.Inc("full_size_entry_chunks")
+		}
 		c.Cur(sub, i, fmt.Sprintf("entries=%d next=%v", len(ch.Entries), ch.Next != nil))
 		wit := func() any {
 			var es []string
 			for _, e := range ch.Entries {
+				if len(es) == 64 {
+					es = append(es, fmt.Sprintf("… %d entries in all", len(ch.Entries)))
+					break
+				}
 				es = append(es, hex.EncodeToString(e))
 			}
 			nx := ""
